@@ -12,7 +12,7 @@ RULE = ("a table of (operation, state in which it completes without waiting) row
         "postpone in a loop (with seeded phase), an optional competing actor and both "
         "wait-queue backends. Every case is non-trivial (the operation completes within the "
         "time step with at least one runnable spinner); distinct = distinct (row, environment).")
-BUDGET = {"quick": {"cases": 40000, "wall_s": 100, "chunk": 100},
+BUDGET = {"quick": {"cases": 40000, "wall_s": 240, "chunk": 100},
           "thorough": {"cases": 300000, "wall_s": 1500, "chunk": 400}}
 ASSUMPTIONS = ["operations that end in an API error (StreamClosed, ResourcesUnavailable, "
                "ScopeClosed) are not completions and are not asserted",
